@@ -1,7 +1,7 @@
 (* C02: parse_render theorems for the RFC 2822 form  Www, DD Mon YYYY HH:MM:SS GMT|UTC. *)
 From Coq Require Import ZArith List Bool Lia ZifyBool.
 From V Require Import base.Cal gen.ParseTables parse.Lex parse.Prim parse.Ymd parse.Parse parse.Build
-                      parse.ParseSpec parse.LexSeg parse.TokFacts parse.YearThm parse.RenderTac parse.RenderTac3 parse.RenderIso parse.WordFacts parse.LexSeg2 parse.RenderCommaDefs.
+                      parse.ParseSpec parse.LexSeg parse.TokFacts parse.YearThm parse.RenderTac parse.RenderTac3 parse.RenderIso parse.WordFacts parse.LexSeg2 parse.RenderCommaDefs parse.RenderTac4.
 Import ListNotations.
 Open Scope Z_scope.
 Ltac Zify.zify_post_hook ::= Z.to_euclidean_division_equations.
@@ -83,12 +83,12 @@ Proof.
        o_ignoretz o_tzinfos o_local o_nm0 o_nm1].
   unfold parse_res. rewrite Hrender, timelex_segments by exact Hwf. clear Hrender Hwf.
   unfold rfc_segs. set (wdn := weekday (d_y d) (d_mo d) (d_d d)) in *.
-  destruct gmt; cbn [app map seg_tok];
+  destruct gmt; cbn [app map seg_tok length];
   destruct Hyc as [Hyc | Hyc];
-  repeat (progress (unfold dec_gt, dec_ge, dec_lt, dec_le, frac_nonzero; cbn [fst snd existsb]; sym2;
-                    wordrw Hm12; wdrw Hw; rewrite ?Hl1, ?Hl2;
-                    rewrite ?convertyear_ge100 by lia));
-  rewrite ?(day_nonzero (d_d d)) by (clear - Hd31; lia);
+  lrun ltac:(unfold dec_gt, dec_ge, dec_lt, dec_le, frac_nonzero; cbn [fst snd existsb];
+             wordrw Hm12; wdrw Hw; rewrite ?Hl1, ?Hl2; rewrite ?convertyear_ge100 by lia);
+  try (match goal with |- context [if ?c then add_weekday _ _ else _] =>
+         replace c with false by (clear - Hd31; destruct (d_d d); [exfalso; lia | reflexivity | reflexivity]) end);
   repeat (progress sym2);
   try match goal with |- (if ?b then _ else _) = _ => destruct b end;
   reflexivity.
